@@ -608,7 +608,12 @@ class Gen:
             hs = self.handles(lambda n: True); h = r.choice(hs); n = s.items[h]; x = r.random()
             if x < 0.3: return self.emit('setn:%d:%s' % (h, dt(r.choice(NUMS))))
             if x < 0.4: return self.emit('seti:%d:%d' % (h, r.choice(INTS)))
-            if x < 0.55: return self.emit('setb:%d:%d' % (h, r.randrange(2)))
+            if x < 0.55:
+                # aim at booleans (the only items the call changes), and among them at the ones carrying flag bits (constant key, reference)
+                bs = self.handles(lambda n: n.ty & 3); fs = [i for i in bs if s.items[i].ty & ~0xff]
+                if fs and r.random() < 0.5: h = r.choice(fs); self.tags.add('setbool-flagged')
+                elif bs and r.random() < 0.7: h = r.choice(bs)
+                return self.emit('setb:%d:%d' % (h, r.randrange(2)))
             ss = self.handles(lambda n: (n.ty & T_STRING) and n.vs is not None)
             if ss and r.random() < 0.8: h = r.choice(ss); n = s.items[h]
             y = r.random()
@@ -726,6 +731,17 @@ def directed_link_cases():
                     ops += ['ins:0:0:%d' % f, 'size:0']
                     cases.append(Case('hist DX 0 ' + ';'.join(ops), {'tags': ['directed', 'directed:' + what, 'size%d' % n]}))
     return cases
+
+def setbool_cases():
+    """cJSON_SetBoolValue on booleans that carry ownership flags (constant key; reference to a boolean): only the two value bits may change"""
+    res = []
+    for b0 in ('true', 'false'):
+        for v in (0, 1):
+            res.append(Case('hist DX 0 obj;%s;addcs:0:x636b:1;setb:1:%d;each:0;dup:0:1;each:2;del:2;geto:0:x636b;del:0' % (b0, v), {'tags': ['directed', 'setbool-flagged']}))
+            res.append(Case('hist DX 0 obj;%s;addcs:0:x636b:1;setb:1:%d;setb:1:%d;deto:0:x636b;del:1;del:0' % (b0, v, 1 - v), {'tags': ['directed', 'setbool-flagged']}))
+            res.append(Case('hist DX 0 obj;%s;addcs:0:x636b:1;%s;setb:1:%d;repocs:0:x636b:2;del:0' % (b0, b0, v), {'tags': ['directed', 'setbool-flagged']}))
+            res.append(Case('hist DX 0 arr;%s;addref:0:1;get:0:0;setb:2:%d;each:0;del:0;del:1' % (b0, v), {'tags': ['directed', 'setbool-flagged']}))
+    return res
 
 def directed_key_cases():
     """objects whose keys collide under ASCII case folding, in every order, queried with every spelling through every
